@@ -175,6 +175,13 @@ fn honest(drv: &mut Driver, rep: &mut Report, stream: &str, c: &Case, check_pred
     }
     let o = got?;
     let sreq = send_req(&c.sid, &c.sd, &o.r1);
+    // every other case: the sender has JUST rejected a corrupted copy of this message on the same thread (an abort leaves
+    // nothing behind: the honest message that follows must be processed as if it were the first)
+    if c.tape.first().map_or(false, |b| b & 4 != 0) {
+        let mut bad = o.r1.clone(); let p = (c.tape.get(1).copied().unwrap_or(0) as usize * 131) % (bad.len() * 8); bad[p / 8] ^= 1 << (p % 8);
+        rep.hist("sender:honest-after-rejected-message");
+        if !matches!(run_send(&c.sid, &c.sd.r, &bad), Some(Err(()))) { rep.hist("sender:corrupted-copy-not-rejected (see C04)"); }
+    }
     let sgot = run_send(&c.sid, &c.sd.r, &o.r1);
     let sgot_s = send_str(&sgot);
     let smodel = drv.ask_with(&sreq, &mut |q| oracle::answer(q));
